@@ -47,6 +47,9 @@ def step (s : St) (ts : List String) : St × List String :=
   | ["pack"] =>
     let ms := pack s.opts s.items.reverse
     (s, [" | ".intercalate (sortStrs (ms.map (msgStr s.opts)))])
+  | ["wire"] =>
+    let ms := wire s.opts s.items.reverse
+    (s, [" | ".intercalate (sortStrs (ms.map (msgStr s.opts)))])
   | ["maxn", al] => (s, [toString (maxN s.opts (nat! al))])
   | [] => (s, [])
   | _ => (s, ["bad-op"])
